@@ -82,18 +82,24 @@ class Link(object):
     d = r.dests[0]
     t = r.transport(d)
     t.pause_after = arm
-    for name, ts, value in datapoints:
-      # routed by the generated rules: names not starting with m/n go to the default rule = this destination
-      r.cm.sendDatapoint(name, (ts, value))
-    for _ in range(10000):
-      if not r.reactor.clock.getDelayedCalls():
-        if t.producer is not None and getattr(t.producer, 'paused', False):
-          t.producer.resumeProducing()
-          continue
-        break
-      calls = r.reactor.clock.getDelayedCalls()
-      nxt = min(c.getTime() for c in calls)
-      r.reactor.clock.advance(max(0.0, nxt - r.reactor.clock.seconds()))
+    try:
+      for name, ts, value in datapoints:
+        # routed by the generated rules: names not starting with m/n go to the default rule = this destination
+        r.cm.sendDatapoint(name, (ts, value))
+      for _ in range(10000):
+        if not r.reactor.clock.getDelayedCalls():
+          if t.producer is not None and getattr(t.producer, 'paused', False):
+            t.producer.resumeProducing()
+            continue
+          break
+        calls = r.reactor.clock.getDelayedCalls()
+        nxt = min(c.getTime() for c in calls)
+        r.reactor.clock.advance(max(0.0, nxt - r.reactor.clock.seconds()))
+    except Exception as e:   # noqa
+      # the sending side raised (in the daemon: out of a timed call, logged by the reactor; the batch in hand is gone)
+      data = b''.join(t.written)
+      del t.written[:]
+      return data, 'the client raised %r while sending' % (e,)
     data = b''.join(t.written)
     del t.written[:]
     left = len(r.factory(d).queue)
@@ -154,7 +160,7 @@ def value_shard(arg):
     n += len(sent)
     where = '%s link, values chunk %d' % (kind, off)
     if exc is not None or closing or left:
-      bad.append(('transport', '%s: exception %r closing %r left in queue %d' % (where, exc, closing, left), {'kind': kind, 'sent': sent[:3]}))
+      bad.append(('transport', '%s: exception %r closing %r left in queue %s' % (where, exc, closing, left), {'kind': kind, 'sent': sent[:3]}))
       continue
     v = check_batch(kind, sent, got, where)
     if v:
@@ -229,7 +235,7 @@ def split_shard(arg):
       where = '%s link, queue of %d, MAX_DATAPOINTS_PER_MESSAGE=%d, cut %r%s' % (
         kind, qlen, batch, cut, ', transport pauses after write %d' % arm if arm else '')
       if exc is not None or closing or left:
-        bad.append(('transport', '%s: exception %r closing %r left %d' % (where, exc, closing, left), {'kind': kind, 'sent': sent, 'batch': batch}))
+        bad.append(('transport', '%s: exception %r closing %r left %s' % (where, exc, closing, left), {'kind': kind, 'sent': sent, 'batch': batch}))
         break
       v = check_batch(kind, sent, got, where)
       if v:
@@ -262,7 +268,7 @@ def large_shard(arg):
     kind, count, namelen, batch, len(data))
   rep = {'kind': kind, 'batch': batch, 'large': [count, namelen]}
   if exc is not None or closing or left:
-    return 1, 0, [('transport', '%s: exception %r closing %r left %d' % (where, exc, closing, left), rep)]
+    return 1, 0, [('transport', '%s: exception %r closing %r left %s' % (where, exc, closing, left), rep)]
   if len(got) != len(sent):
     missing = sorted(set(x[0].split('.')[0] for x in sent) - set(g[0].split('.')[0] for g in got))
     return 1, 0, [('sequence', '%s: %d datapoints queued, %d ingested; missing %r' % (where, len(sent), len(got), missing[:5]), rep)]
